@@ -1,28 +1,919 @@
 import TemplVerif.Model.Css
 import TemplVerif.Spec.CssScan
 import TemplVerif.Proofs.Html
+import TemplVerif.Proofs.Url
 /- Helper lemmas for C05 (Props/C05.lean only cites these). -/
 namespace TemplVerif.Proofs.Css
 open TemplVerif TemplVerif.CssModel
+
+/-! ### Byte facts by exhaustive check -/
+
+theorem forall_byte {P : UInt8 → Prop} (h : ∀ n : Nat, n < 256 → P (UInt8.ofNat n)) (b : UInt8) : P b := by
+  have := h b.toNat (UInt8.toNat_lt b)
+  simpa using this
+
+/-- identifier bytes, lower-cased, are '-' or a–z -/
+def factIdent (b : UInt8) : Bool :=
+  !(b == 45 || isAlpha b) || (lower b == 45 || (97 ≤ lower b && lower b ≤ 122))
+
+set_option maxRecDepth 8000 in
+theorem factIdent_all : ∀ n : Nat, n < 256 → factIdent (UInt8.ofNat n) = true := by decide
 
 /-- The sanitised property name is the innocuous name or a non-empty lower-case `[-a-z]+` identifier. -/
 theorem sanitizeProperty_shape (p : Bytes) :
     sanitizeProperty p = Generated.cssInnocuousPropertyName ∨
     (sanitizeProperty p ≠ [] ∧ ∀ b ∈ sanitizeProperty p, b = 45 ∨ (97 ≤ b ∧ b ≤ 122)) := by
-  sorry
+  unfold sanitizeProperty
+  split
+  · rename_i h
+    right
+    simp only [matchIdentifier, Bool.and_eq_true, Bool.not_eq_true', List.isEmpty_eq_false_iff,
+      List.all_eq_true] at h
+    refine ⟨by simpa using h.1, ?_⟩
+    intro b hb
+    obtain ⟨a, ha, rfl⟩ := List.mem_map.mp hb
+    have h1 := h.2 a ha
+    have h2 := forall_byte (P := fun b => factIdent b = true) factIdent_all a
+    simp only [factIdent, h1, Bool.not_true, Bool.false_or, Bool.or_eq_true, beq_iff_eq,
+      Bool.and_eq_true, decide_eq_true_eq] at h2
+    exact h2
+  · left; rfl
+
+open TemplVerif.Css (St Mode scanAux step)
+
+/-! ### Scanner runs -/
+
+/-- normal mode, empty stack -/
+def N (id : Bytes) (us : List Bytes) : St :=
+  { mode := .normal, stack := [], ident := id, cur := [], inUrlFn := false, urls := us }
+
+/-- The scanner, started in state `s`, crosses `x` (whatever follows) and arrives in state `s'`. -/
+def Run (s : St) (x : Bytes) (s' : St) : Prop :=
+  ∀ fuel i rest, scanAux (fuel + x.length) s i (x ++ rest) = scanAux fuel s' (i + x.length) rest
+
+theorem Run.nil (s : St) : Run s [] s := by
+  intro fuel i rest; simp
+
+theorem Run.append {s s' s'' : St} {x y : Bytes} (h1 : Run s x s') (h2 : Run s' y s'') :
+    Run s (x ++ y) s'' := by
+  intro fuel i rest
+  have e : fuel + (x ++ y).length = (fuel + y.length) + x.length := by simp; omega
+  rw [e, List.append_assoc, h1, h2]
+  simp [Nat.add_assoc]
+
+def identStep (id : Bytes) (b : UInt8) : Bytes := if Css.isIdentByte b then id ++ [Css.lower b] else []
+
+/-- bytes that do nothing but update `ident` in normal mode (`/` is excluded: it needs look-ahead) -/
+def inertB (b : UInt8) : Bool :=
+  b != 59 && b != 34 && b != 39 && b != 92 && b != 40 && b != 41 && b != 91 && b != 93 && b != 123 &&
+    b != 125 && b != 47
+
+theorem run_inert1 (b : UInt8) (h : inertB b = true) (id : Bytes) (us : List Bytes) :
+    Run (N id us) [b] (N (identStep id b) us) := by
+  intro fuel i rest
+  simp only [inertB, Bool.and_eq_true, bne_iff_ne, ne_eq] at h
+  obtain ⟨⟨⟨⟨⟨⟨⟨⟨⟨⟨h1, h2⟩, h3⟩, h4⟩, h5⟩, h6⟩, h7⟩, h8⟩, h9⟩, h10⟩, h11⟩ := h
+  by_cases hb : Css.isIdentByte b = true <;>
+    simp [scanAux, step, N, identStep, h1, h2, h3, h4, h5, h6, h7, h8, h9, h10, h11, hb]
+
+theorem run_inert (x : Bytes) (h : x.all inertB = true) (id : Bytes) (us : List Bytes) :
+    Run (N id us) x (N (x.foldl identStep id) us) := by
+  induction x generalizing id with
+  | nil => exact Run.nil _
+  | cons b x ih =>
+    simp only [List.all_cons, Bool.and_eq_true] at h
+    have := Run.append (run_inert1 b h.1 id us) (ih h.2 (identStep id b))
+    simpa using this
+
+/-! string mode -/
+def strB (q b : UInt8) : Bool := b != q && !Css.isNewline b && b != 92
+
+theorem run_str1 (q b : UInt8) (h : strB q b = true) (st : List UInt8) (cur : Bytes) (f : Bool) (us : List Bytes) :
+    Run ⟨.str q, st, [], cur, f, us⟩ [b] ⟨.str q, st, [], cur ++ [b], f, us⟩ := by
+  intro fuel i rest
+  simp only [strB, Bool.and_eq_true, bne_iff_ne, ne_eq, Bool.not_eq_true'] at h
+  obtain ⟨⟨h1, h2⟩, h3⟩ := h
+  simp [scanAux, step, h1, h2, h3]
+
+theorem run_str (q : UInt8) (x : Bytes) (h : x.all (strB q) = true) (st : List UInt8) (cur : Bytes) (f : Bool)
+    (us : List Bytes) :
+    Run ⟨.str q, st, [], cur, f, us⟩ x ⟨.str q, st, [], cur ++ x, f, us⟩ := by
+  induction x generalizing cur with
+  | nil => simpa using Run.nil _
+  | cons b x ih =>
+    simp only [List.all_cons, Bool.and_eq_true] at h
+    have := Run.append (run_str1 q b h.1 st cur f us) (ih h.2 (cur ++ [b]))
+    simpa using this
+
+theorem run_open_quote (q : UInt8) (hq : q = 34 ∨ q = 39) (id : Bytes) (us : List Bytes) :
+    Run (N id us) [q] ⟨.str q, [], [], [], false, us⟩ := by
+  intro fuel i rest
+  rcases hq with rfl | rfl <;> simp [scanAux, step, N]
+
+theorem run_close_quote (q : UInt8) (st : List UInt8) (cur : Bytes) (us : List Bytes) :
+    Run ⟨.str q, st, [], cur, false, us⟩ [q] ⟨.normal, st, [], [], false, us⟩ := by
+  intro fuel i rest
+  simp [scanAux, step]
+
+theorem run_close_quote_url (q : UInt8) (st : List UInt8) (cur : Bytes) (us : List Bytes) :
+    Run ⟨.str q, st, [], cur, true, us⟩ [q] ⟨.normal, st, [], [], false, us ++ [cur]⟩ := by
+  intro fuel i rest
+  simp [scanAux, step]
+
+theorem run_close_paren (us : List Bytes) :
+    Run ⟨.normal, [41], [], [], false, us⟩ [41] (N [] us) := by
+  intro fuel i rest
+  simp [scanAux, step, N]
+
+theorem run_open_url (us : List Bytes) :
+    Run (N Css.urlIdent us) [40] ⟨.url, [41], [], [], false, us⟩ := by
+  intro fuel i rest
+  simp [scanAux, step, N]
+
+theorem run_url_quote (q : UInt8) (hq : q = 34 ∨ q = 39) (us : List Bytes) :
+    Run ⟨.url, [41], [], [], false, us⟩ [q] ⟨.str q, [41], [], [], true, us⟩ := by
+  intro fuel i rest
+  rcases hq with rfl | rfl <;> simp [scanAux, Css.isWs, Css.isNewline]
+
+def urlB (b : UInt8) : Bool :=
+  b != 41 && !Css.isWs b && b != 34 && b != 39 && b != 40 && !(decide (b < 32)) && b != 127 && b != 92
+
+theorem run_url1 (b : UInt8) (h : urlB b = true) (cur : Bytes) (us : List Bytes) :
+    Run ⟨.url, [41], [], cur, false, us⟩ [b] ⟨.url, [41], [], cur ++ [b], false, us⟩ := by
+  intro fuel i rest
+  simp only [urlB, Bool.and_eq_true, bne_iff_ne, ne_eq, Bool.not_eq_true', decide_eq_false_iff_not] at h
+  obtain ⟨⟨⟨⟨⟨⟨⟨h1, h2⟩, h3⟩, h4⟩, h5⟩, h6⟩, h7⟩, h8⟩ := h
+  simp [scanAux, step, h1, h2, h3, h4, h5, h6, h7, h8]
+
+theorem run_url (x : Bytes) (h : x.all urlB = true) (cur : Bytes) (us : List Bytes) :
+    Run ⟨.url, [41], [], cur, false, us⟩ x ⟨.url, [41], [], cur ++ x, false, us⟩ := by
+  induction x generalizing cur with
+  | nil => simpa using Run.nil _
+  | cons b x ih =>
+    simp only [List.all_cons, Bool.and_eq_true] at h
+    have := Run.append (run_url1 b h.1 cur us) (ih h.2 (cur ++ [b]))
+    simpa using this
+
+theorem run_url_close (cur : Bytes) (us : List Bytes) :
+    Run ⟨.url, [41], [], cur, false, us⟩ [41] (N [] (us ++ [cur])) := by
+  intro fuel i rest
+  simp [scanAux, step, N, Css.isWs, Css.isNewline]
+
+theorem scan_done (id : Bytes) (us : List Bytes) (fuel i : Nat) (post : Bytes) :
+    scanAux (fuel + 1) (N id us) i (59 :: post) = some (i, us) := by
+  simp [scanAux, step, N]
+
+theorem scan_slash (id : Bytes) (us : List Bytes) (fuel i : Nat) (rest : Bytes) (h : rest.head? ≠ some 42) :
+    scanAux (fuel + 1) (N id us) i (47 :: rest) = scanAux fuel (N [] us) (i + 1) rest := by
+  simp [scanAux, step, N, h, Css.isIdentByte]
+
+/-! ### regular values -/
+
+def factSafe (b : UInt8) : Bool := !safeRegularByte b || (inertB b && b != 42 && b != 60)
+set_option maxRecDepth 8000 in
+theorem factSafe_all : ∀ n : Nat, n < 256 → factSafe (UInt8.ofNat n) = true := by decide
+
+theorem safe_facts (b : UInt8) (h : safeRegularByte b = true) : inertB b = true ∧ b ≠ 42 ∧ b ≠ 60 := by
+  have h2 := forall_byte (P := fun b => factSafe b = true) factSafe_all b
+  simp only [factSafe, h, Bool.not_true, Bool.false_or, Bool.and_eq_true, bne_iff_ne, ne_eq] at h2
+  exact ⟨h2.1.1, h2.1.2, h2.2⟩
+
+theorem scan_regular (v : Bytes) (h : matchRegular v = true) :
+    ∀ (id : Bytes) (us : List Bytes) (fuel i : Nat) (rest : Bytes), rest.head? ≠ some 42 →
+      ∃ id', scanAux (fuel + v.length) (N id us) i (v ++ rest) = scanAux fuel (N id' us) (i + v.length) rest := by
+  fun_induction matchRegular v with
+  | case1 => intro id us fuel i rest _; exact ⟨id, by simp⟩
+  | case2 b hb =>
+    intro id us fuel i rest hr
+    simp only [Bool.or_eq_true, beq_iff_eq] at hb
+    rcases hb with rfl | rfl
+    · exact ⟨_, by simpa using run_inert1 42 (by decide) id us fuel i rest⟩
+    · exact ⟨_, by simpa using scan_slash id us fuel i rest hr⟩
+  | case3 b hb c rest' ih =>
+    intro id us fuel i rest hr
+    simp only [Bool.and_eq_true] at h
+    obtain ⟨hc1, hc2, hc3⟩ := safe_facts c h.1
+    have e1 : ∃ id1, scanAux (fuel + (b :: c :: rest').length) (N id us) i (b :: c :: rest' ++ rest) =
+        scanAux (fuel + rest'.length + 1) (N id1 us) (i + 1) (c :: (rest' ++ rest)) := by
+      simp only [Bool.or_eq_true, beq_iff_eq] at hb
+      rcases hb with rfl | rfl
+      · exact ⟨_, by simpa [Nat.add_assoc] using run_inert1 42 (by decide) id us (fuel + rest'.length + 1) i (c :: (rest' ++ rest))⟩
+      · exact ⟨_, by simpa [Nat.add_assoc] using scan_slash id us (fuel + rest'.length + 1) i (c :: (rest' ++ rest)) (by simpa using hc2)⟩
+    obtain ⟨id1, e1⟩ := e1
+    obtain ⟨id', e⟩ := ih h.2 (identStep id1 c) us fuel (i + 2) rest hr
+    refine ⟨id', ?_⟩
+    have e2 := run_inert1 c hc1 id1 us (fuel + rest'.length) (i + 1) (rest' ++ rest)
+    simp only [List.length_cons, List.length_nil, List.cons_append, List.nil_append] at e2
+    rw [e1, e2, e]
+    congr 1
+    simp only [List.length_cons]; omega
+  | case4 b rest' hb ih =>
+    intro id us fuel i rest hr
+    simp only [Bool.and_eq_true] at h
+    obtain ⟨hc1, _, _⟩ := safe_facts b h.1
+    obtain ⟨id', e⟩ := ih h.2 (identStep id b) us fuel (i + 1) rest hr
+    refine ⟨id', ?_⟩
+    have e2 := run_inert1 b hc1 id us (fuel + rest'.length) i (rest' ++ rest)
+    simp only [List.length_cons, List.length_nil, List.cons_append, List.nil_append] at e2
+    have e3 : fuel + (b :: rest').length = fuel + rest'.length + (0 + 1) := by
+      simp only [List.length_cons]; omega
+    rw [e3, List.cons_append, e2, e]
+    congr 1
+    simp only [List.length_cons]; omega
+
+/-! ### Assembly -/
+
+/-- The scanner crosses the value (started right after `name:`) and reaches the closing `;` in normal mode
+    with an empty stack, having seen only allowed urls; and the value has no `<`. -/
+def ValueGood (w : Bytes) : Prop :=
+  (∃ us : List Bytes, us.all Css.urlAllowed = true ∧ ∀ fuel i post, ∃ id',
+      scanAux (fuel + w.length) (N [] []) i (w ++ 59 :: post) = scanAux fuel (N id' us) (i + w.length) (59 :: post)) ∧
+    (60 : UInt8) ∉ w
+
+theorem ValueGood.of_run {w id us} (h : Run (N [] []) w (N id us)) (hu : us.all Css.urlAllowed = true)
+    (h60 : (60 : UInt8) ∉ w) : ValueGood w :=
+  ⟨⟨us, hu, fun fuel i _ => ⟨id, h fuel i _⟩⟩, h60⟩
+
+theorem foldl_identStep_snoc (id x : Bytes) (c : UInt8) (hc : Css.isIdentByte c = false) :
+    (x ++ [c]).foldl identStep id = [] := by
+  simp [List.foldl_append, identStep, hc]
+
+theorem pair_good (p w : Bytes) (hp : p.all inertB = true) (hp60 : (60 : UInt8) ∉ p) (hw : ValueGood w) :
+    Css.DeclSafe p w := by
+  obtain ⟨⟨us, hu, hs⟩, h60⟩ := hw
+  refine ⟨?_, h60, hp60⟩
+  intro post
+  have hrun : Run (N [] []) (p ++ [58]) (N [] []) := by
+    have := run_inert (p ++ [58]) (by simp [hp, inertB]) [] []
+    rwa [foldl_identStep_snoc _ _ _ (by decide)] at this
+  obtain ⟨id', e⟩ := hs (post.length + 1 + 1) (0 + (p ++ [58]).length) post
+  have e0 := hrun (post.length + 1 + 1 + w.length) 0 (w ++ 59 :: post)
+  have el : (p ++ [58] ++ w ++ [59] ++ post).length + 1 = post.length + 1 + 1 + w.length + (p ++ [58]).length := by
+    simp only [List.length_append, List.length_cons, List.length_nil]; omega
+  have ei : p ++ [58] ++ w ++ [59] ++ post = (p ++ [58]) ++ (w ++ 59 :: post) := by simp
+  have : Css.scanDecl (p ++ [58] ++ w ++ [59] ++ post) = some (p.length + 1 + w.length, us) := by
+    show scanAux _ (N [] []) 0 _ = _
+    rw [el, ei, e0, e, scan_done]
+    simp
+  rw [Css.declSafeWith, this]
+  simp [hu]
+
+def factEnum (b : UInt8) : Bool := !(isAlpha b || b == 45) || (inertB b && b != 60 && safeRegularByte b)
+set_option maxRecDepth 8000 in
+theorem factEnum_all : ∀ n : Nat, n < 256 → factEnum (UInt8.ofNat n) = true := by decide
+
+theorem enum_facts (b : UInt8) (h : (isAlpha b || b == 45) = true) :
+    inertB b = true ∧ b ≠ 60 ∧ safeRegularByte b = true := by
+  have h2 := forall_byte (P := fun b => factEnum b = true) factEnum_all b
+  simp only [factEnum, h, Bool.not_true, Bool.false_or, Bool.and_eq_true, bne_iff_ne, ne_eq] at h2
+  exact ⟨h2.1.1, h2.1.2, h2.2⟩
+
+theorem valueGood_inert (w : Bytes) (h : w.all inertB = true) (h60 : (60 : UInt8) ∉ w) : ValueGood w :=
+  ValueGood.of_run (run_inert w h [] []) (by simp) h60
+
+theorem innocuous_good : ValueGood innocuousValue :=
+  valueGood_inert _ (by decide) (by decide)
+
+theorem matchRegular_no60 (v : Bytes) (h : matchRegular v = true) : (60 : UInt8) ∉ v := by
+  fun_induction matchRegular v with
+  | case1 => simp
+  | case2 b hb =>
+    simp only [Bool.or_eq_true, beq_iff_eq] at hb
+    rcases hb with rfl | rfl <;> simp
+  | case3 b hb c rest' ih =>
+    simp only [Bool.and_eq_true] at h
+    simp only [Bool.or_eq_true, beq_iff_eq] at hb
+    have h1 : ¬ (60 = c) := fun e => (safe_facts c h.1).2.2 e.symm
+    have := ih h.2
+    rcases hb with rfl | rfl <;> simp [*]
+  | case4 b rest' hb ih =>
+    simp only [Bool.and_eq_true] at h
+    have h1 : ¬ (60 = b) := fun e => (safe_facts b h.1).2.2 e.symm
+    have := ih h.2
+    simp [*]
+
+theorem regular_good (v : Bytes) : ValueGood (sanitizeRegular v) := by
+  unfold sanitizeRegular
+  split
+  · rename_i h
+    refine ⟨⟨[], by simp, fun fuel i post => ?_⟩, matchRegular_no60 v h⟩
+    exact scan_regular v h [] [] fuel i (59 :: post) (by simp)
+  · exact innocuous_good
+
+theorem enum_good (v : Bytes) : ValueGood (sanitizeEnum v) := by
+  unfold sanitizeEnum
+  split
+  · rename_i h
+    simp only [matchEnum, List.all_eq_true] at h
+    refine valueGood_inert v (List.all_eq_true.mpr fun b hb => (enum_facts b (h b hb)).1) ?_
+    intro hm
+    exact (enum_facts 60 (h 60 hm)).2.1 rfl
+  · exact innocuous_good
+
+/-! ### comma-separated parts, trimming -/
+
+def joinComma : List Bytes → Bytes
+  | [] => []
+  | [l] => l
+  | l :: l' :: ls => l ++ 44 :: joinComma (l' :: ls)
+
+theorem splitComma_ne_nil (v : Bytes) : splitComma v ≠ [] := by
+  cases v with
+  | nil => simp [splitComma]
+  | cons b rest =>
+    unfold splitComma
+    split
+    · simp
+    · split <;> simp
+
+theorem joinComma_splitComma (v : Bytes) : joinComma (splitComma v) = v := by
+  induction v with
+  | nil => simp [splitComma, joinComma]
+  | cons b rest ih =>
+    unfold splitComma
+    split
+    · rename_i hb
+      have hne := splitComma_ne_nil rest
+      cases hs : splitComma rest with
+      | nil => exact absurd hs hne
+      | cons l ls => rw [hs] at ih; simp [joinComma, ih, hb]
+    · have hne := splitComma_ne_nil rest
+      cases hs : splitComma rest with
+      | nil => exact absurd hs hne
+      | cons l ls =>
+        rw [hs] at ih
+        cases ls with
+        | nil => simpa [joinComma] using ih
+        | cons l' ls => simp only [joinComma] at ih ⊢; simp [ih]
+
+theorem mem_joinComma {parts : List Bytes} {part : Bytes} {b : UInt8} (hp : part ∈ parts) (hb : b ∈ part) :
+    b ∈ joinComma parts := by
+  induction parts with
+  | nil => cases hp
+  | cons l ls ih =>
+    cases ls with
+    | nil =>
+      simp only [List.mem_cons, List.not_mem_nil, or_false] at hp
+      subst hp; simpa [joinComma] using hb
+    | cons l' ls =>
+      simp only [joinComma, List.mem_append, List.mem_cons]
+      rcases List.mem_cons.mp hp with rfl | hp
+      · exact Or.inl hb
+      · exact Or.inr (Or.inr (ih hp))
+
+/-- membership in the trim cutset `Generated.cssWhitespace` -/
+def wsB (b : UInt8) : Bool := Generated.cssWhitespace.contains b
+
+theorem cssWhitespace_pinned : Generated.cssWhitespace = [32, 9, 10, 13, 12] := by decide
+
+def factWs (b : UInt8) : Bool := !wsB b || (inertB b && !Css.isIdentByte b && b != 60)
+set_option maxRecDepth 8000 in
+theorem factWs_all : ∀ n : Nat, n < 256 → factWs (UInt8.ofNat n) = true := by decide
+
+theorem ws_facts (b : UInt8) (h : wsB b = true) : inertB b = true ∧ Css.isIdentByte b = false ∧ b ≠ 60 := by
+  have h2 := forall_byte (P := fun b => factWs b = true) factWs_all b
+  simp only [factWs, h, Bool.not_true, Bool.false_or, Bool.and_eq_true, bne_iff_ne, ne_eq,
+    Bool.not_eq_true'] at h2
+  exact ⟨h2.1.1, h2.1.2, h2.2⟩
+
+theorem trim_spec (f : Bytes) : ∃ a b, f = a ++ trimSpace f ++ b ∧ a.all wsB = true ∧ b.all wsB = true := by
+  let d := f.dropWhile wsB
+  refine ⟨f.takeWhile wsB, (d.reverse.takeWhile wsB).reverse, ?_, List.all_takeWhile, ?_⟩
+  · have e1 : f = f.takeWhile wsB ++ d := List.takeWhile_append_dropWhile.symm
+    have e2 : d = (d.reverse.dropWhile wsB).reverse ++ (d.reverse.takeWhile wsB).reverse := by
+      rw [← List.reverse_append, List.takeWhile_append_dropWhile, List.reverse_reverse]
+    have e3 : trimSpace f = (d.reverse.dropWhile wsB).reverse := rfl
+    rw [e3, List.append_assoc, ← e2]
+    exact e1
+  · rw [List.all_reverse]; exact List.all_takeWhile
+
+theorem foldl_identStep_nonident (x : Bytes) (h : ∀ b ∈ x, Css.isIdentByte b = false) :
+    x.foldl identStep [] = [] := by
+  induction x with
+  | nil => rfl
+  | cons b x ih =>
+    simp only [List.mem_cons, forall_eq_or_imp] at h
+    simp [identStep, h.1, ih h.2]
+
+/-- running over white space from an empty identifier -/
+theorem run_ws (x : Bytes) (h : x.all wsB = true) (us : List Bytes) : Run (N [] us) x (N [] us) := by
+  have h' := List.all_eq_true.mp h
+  have := run_inert x (List.all_eq_true.mpr fun b hb => (ws_facts b (h' b hb)).1) [] us
+  rwa [foldl_identStep_nonident x fun b hb => (ws_facts b (h' b hb)).2.1] at this
+
+theorem ws_no60 (x : Bytes) (h : x.all wsB = true) : (60 : UInt8) ∉ x :=
+  fun hm => (ws_facts 60 (List.all_eq_true.mp h 60 hm)).2.2 rfl
+
+/-- The scanner crosses the part from an empty identifier, collecting only allowed urls. -/
+def PartRun (t : Bytes) : Prop :=
+  ∀ us, ∃ id' us', Run (N [] us) t (N id' (us ++ us')) ∧ us'.all Css.urlAllowed = true
+
+def PartGood (part : Bytes) : Prop := PartRun part ∧ (60 : UInt8) ∉ part
+
+theorem parts_good (parts : List Bytes) (hne : parts ≠ []) (h : ∀ part ∈ parts, PartGood part) :
+    PartGood (joinComma parts) := by
+  induction parts with
+  | nil => exact absurd rfl hne
+  | cons l ls ih =>
+    cases ls with
+    | nil => simpa [joinComma] using h l (by simp)
+    | cons l' ls =>
+      have h1 := h l (by simp)
+      have h2 := ih (by simp) (fun part hp => h part (List.mem_cons_of_mem _ hp))
+      refine ⟨fun us => ?_, ?_⟩
+      · obtain ⟨id1, us1, r1, a1⟩ := h1.1 us
+        obtain ⟨id2, us2, r2, a2⟩ := h2.1 (us ++ us1)
+        refine ⟨id2, us1 ++ us2, ?_, by simp [a1, a2]⟩
+        have rc : Run (N id1 (us ++ us1)) [44] (N [] (us ++ us1)) := by
+          simpa [identStep, Css.isIdentByte] using run_inert1 44 (by decide) id1 (us ++ us1)
+        have := Run.append r1 (Run.append rc r2)
+        simpa [joinComma, List.append_assoc] using this
+      · simp only [joinComma, List.mem_append, List.mem_cons, not_or]
+        exact ⟨h1.2, by decide, h2.2⟩
+
+theorem PartGood.valueGood {w : Bytes} (h : PartGood w) : ValueGood w := by
+  obtain ⟨id', us', r, a⟩ := h.1 []
+  exact ValueGood.of_run (by simpa using r) a h.2
+
+/-- `ws ++ core ++ ws` -/
+theorem partGood_trim (part : Bytes) (h : PartGood (trimSpace part)) : PartGood part := by
+  obtain ⟨a, b, e, ha, hb⟩ := trim_spec part
+  generalize trimSpace part = t at e h
+  subst e
+  refine ⟨fun us => ?_, ?_⟩
+  · obtain ⟨id1, us1, r1, a1⟩ := h.1 us
+    have h' := List.all_eq_true.mp hb
+    have rb := run_inert b (List.all_eq_true.mpr fun c hc => (ws_facts c (h' c hc)).1) id1 (us ++ us1)
+    exact ⟨_, us1, Run.append (Run.append (run_ws a ha us) r1) rb, a1⟩
+  · simp only [List.mem_append, not_or]
+    exact ⟨⟨ws_no60 a ha, h.2⟩, ws_no60 b hb⟩
+
+/-! ### font-family -/
+
+def fontSet : Bytes := Generated.sanitizeFontFamilyContainsAny.getD 0 []
+
+def factFont (b : UInt8) : Bool := fontSet.contains b || (strB 34 b && b != 60)
+set_option maxRecDepth 8000 in
+theorem factFont_all : ∀ n : Nat, n < 256 → factFont (UInt8.ofNat n) = true := by decide
+
+theorem font_facts (b : UInt8) (h : fontSet.contains b = false) : strB 34 b = true ∧ b ≠ 60 := by
+  have h2 := forall_byte (P := fun b => factFont b = true) factFont_all b
+  simp only [factFont, h, Bool.false_or, Bool.and_eq_true, bne_iff_ne, ne_eq] at h2
+  exact h2
+
+def factGen (b : UInt8) : Bool := !(isAlpha b || b == 45 || b == 32) || (inertB b && b != 60)
+set_option maxRecDepth 8000 in
+theorem factGen_all : ∀ n : Nat, n < 256 → factGen (UInt8.ofNat n) = true := by decide
+
+theorem gen_facts (b : UInt8) (h : (isAlpha b || b == 45 || b == 32) = true) : inertB b = true ∧ b ≠ 60 := by
+  have h2 := forall_byte (P := fun b => factGen b = true) factGen_all b
+  simp only [factGen, h, Bool.not_true, Bool.false_or, Bool.and_eq_true, bne_iff_ne, ne_eq] at h2
+  exact h2
+
+theorem partGood_inert (t : Bytes) (h : ∀ b ∈ t, inertB b = true ∧ b ≠ 60) : PartGood t := by
+  refine ⟨fun us => ⟨t.foldl identStep [], [], ?_, rfl⟩, fun hm => (h 60 hm).2 rfl⟩
+  simpa using run_inert t (List.all_eq_true.mpr fun b hb => (h b hb).1) [] us
+
+theorem quoted_shape (t : Bytes) (hp : hasPrefix t [34] = true) (hl : ¬ t.length < 2)
+    (hs : hasSuffix t [34] = true) :
+    ∃ inner, t = 34 :: inner ++ [34] ∧ (t.drop 1).take (t.length - 2) = inner := by
+  simp only [hasPrefix, hasSuffix, List.isPrefixOf_iff_prefix, List.isSuffixOf_iff_suffix] at hp hs
+  obtain ⟨r, rfl⟩ := hp
+  obtain ⟨u, hu⟩ := hs
+  cases u with
+  | nil =>
+    simp at hu
+    subst hu; simp at hl
+  | cons c u =>
+    simp only [List.cons_append, List.nil_append, List.cons.injEq] at hu
+    obtain ⟨rfl, rfl⟩ := hu
+    exact ⟨u, by simp, by simp⟩
+
+theorem fontPart_good (t : Bytes) (h : fontPartOk t = true) : PartGood t := by
+  unfold fontPartOk at h
+  split at h
+  · rename_i hp
+    simp only [Bool.not_eq_true', Bool.or_eq_false_iff, decide_eq_false_iff_not, Bool.not_eq_false'] at h
+    obtain ⟨inner, rfl, e⟩ := quoted_shape t hp h.1.1 h.1.2
+    have hc := h.2
+    rw [e] at hc
+    have hin : ∀ b ∈ inner, strB 34 b = true ∧ b ≠ 60 := by
+      intro b hb
+      apply font_facts
+      simp only [containsAny, List.any_eq_false] at hc
+      simpa [fontSet] using hc b hb
+    refine ⟨fun us => ⟨[], [], ?_, rfl⟩, ?_⟩
+    · have r1 := run_open_quote 34 (Or.inl rfl) [] us
+      have r2 := run_str 34 inner (List.all_eq_true.mpr fun b hb => (hin b hb).1) [] [] false us
+      have r3 := run_close_quote 34 [] ([] ++ inner) us
+      have := Run.append r1 (Run.append r2 r3)
+      simpa [N] using this
+    · simp only [List.mem_cons, List.mem_append, List.mem_nil_iff, or_false, not_or]
+      exact ⟨⟨by decide, fun hm => (hin 60 hm).2 rfl⟩, by decide⟩
+  · cases t with
+    | nil => simp [matchGenericFont] at h
+    | cons b rest =>
+      simp only [matchGenericFont, Bool.and_eq_true, List.all_eq_true] at h
+      apply partGood_inert
+      intro c hc
+      rcases List.mem_cons.mp hc with rfl | hc
+      · exact gen_facts c (by simp [h.1.1])
+      · exact gen_facts c (h.2 c hc)
+
+theorem fontFamily_good (v : Bytes) : ValueGood (sanitizeFontFamily v) := by
+  unfold sanitizeFontFamily
+  split
+  · rename_i h
+    have h' := List.all_eq_true.mp h
+    have := parts_good (splitComma v) (splitComma_ne_nil v) fun part hp =>
+      partGood_trim part (fontPart_good _ (h' part hp))
+    rw [joinComma_splitComma] at this
+    exact this.valueGood
+  · exact innocuous_good
+
+/-! ### urls: what Go's scheme test accepts, a browser resolves with no scheme or http/https/mailto -/
+
+theorem dropWhile_none {p : UInt8 → Bool} (l : Bytes) (h : ∀ b ∈ l, p b = false) : l.dropWhile p = l := by
+  cases l with
+  | nil => rfl
+  | cons a l => simp [h a (by simp)]
+
+def factC0 (b : UInt8) : Bool :=
+  (decide (b < 0x20) || b == 0x20) || (!Whatwg.isC0OrSpace b && !Whatwg.isTabOrNewline b)
+set_option maxRecDepth 8000 in
+theorem factC0_all : ∀ n : Nat, n < 256 → factC0 (UInt8.ofNat n) = true := by decide
+
+theorem c0_facts (b : UInt8) (h1 : ¬ b < 0x20) (h2 : b ≠ 0x20) :
+    Whatwg.isC0OrSpace b = false ∧ Whatwg.isTabOrNewline b = false := by
+  have h := forall_byte (P := fun b => factC0 b = true) factC0_all b
+  simpa [factC0, h1, h2] using h
+
+theorem preprocess_id (u : Bytes) (h : ∀ b ∈ u, ¬ b < 0x20 ∧ b ≠ 0x20) : Whatwg.preprocess u = u := by
+  have h1 : ∀ b ∈ u, Whatwg.isC0OrSpace b = false := fun b hb => (c0_facts b (h b hb).1 (h b hb).2).1
+  have h2 : ∀ b ∈ u, Whatwg.isTabOrNewline b = false := fun b hb => (c0_facts b (h b hb).1 (h b hb).2).2
+  simp only [Whatwg.preprocess]
+  rw [dropWhile_none u h1, dropWhile_none u.reverse (fun b hb => h1 b (List.mem_reverse.mp hb)),
+    List.reverse_reverse, List.filter_eq_self]
+  intro b hb
+  simp [h2 b hb]
+
+theorem schemeState_some (l : Bytes) : ∀ (acc sc : Bytes), Whatwg.schemeState acc l = some sc →
+    ∃ x y, l = x ++ 58 :: y ∧ x.all Whatwg.isSchemeChar = true ∧ sc = acc ++ x.map Whatwg.lower := by
+  induction l with
+  | nil => intro acc sc h; simp [Whatwg.schemeState] at h
+  | cons b rest ih =>
+    intro acc sc h
+    simp only [Whatwg.schemeState] at h
+    split at h
+    · rename_i hb
+      obtain ⟨x, y, e, hx, hsc⟩ := ih _ _ h
+      exact ⟨b :: x, y, by simp [e], by simp [hb, hx], by simp [hsc]⟩
+    · split at h
+      · rename_i hb
+        simp only [beq_iff_eq] at hb
+        simp only [Option.some.injEq] at h
+        exact ⟨[], rest, by simp [hb], by simp, by simp [h]⟩
+      · cases h
+
+def factScheme (b : UInt8) : Bool :=
+  !Whatwg.isSchemeChar b ||
+    (b != 35 && b != 58 && decide (lower b < 0x80) && Whatwg.lower (lower b) == Whatwg.lower b &&
+      (isAlpha b || isDigit b || b == 43 || b == 45 || b == 46) && (isAlpha b == Whatwg.isAlpha b))
+set_option maxRecDepth 8000 in
+theorem factScheme_all : ∀ n : Nat, n < 256 → factScheme (UInt8.ofNat n) = true := by decide
+
+theorem scheme_facts (b : UInt8) (h : Whatwg.isSchemeChar b = true) :
+    b ≠ 35 ∧ b ≠ 58 ∧ lower b < 0x80 ∧ Whatwg.lower (lower b) = Whatwg.lower b ∧
+      (isAlpha b || isDigit b || b == 43 || b == 45 || b == 46) = true ∧ isAlpha b = Whatwg.isAlpha b := by
+  have h2 := forall_byte (P := fun b => factScheme b = true) factScheme_all b
+  simp only [factScheme, h, Bool.not_true, Bool.false_or, Bool.and_eq_true, bne_iff_ne, ne_eq,
+    decide_eq_true_eq, beq_iff_eq] at h2
+  obtain ⟨⟨⟨⟨⟨a, b⟩, c⟩, d⟩, e⟩, f⟩ := h2
+  exact ⟨a, b, c, d, e, f⟩
+
+theorem getSchemeAux_good (x : Bytes) : ∀ (i : Nat) (acc y : Bytes), i ≠ 0 → x.all Whatwg.isSchemeChar = true →
+    getSchemeAux i acc (x ++ 58 :: y) = some (some (acc ++ x)) := by
+  induction x with
+  | nil => intro i acc y hi _; simp [getSchemeAux, isAlpha, isDigit, hi]
+  | cons b x ih =>
+    intro i acc y hi hx
+    simp only [List.all_cons, Bool.and_eq_true] at hx
+    have hf := (scheme_facts b hx.1).2.2.2.2.1
+    simp only [List.cons_append, getSchemeAux]
+    by_cases ha : isAlpha b = true
+    · simp only [ha, if_true]
+      rw [ih _ _ _ (by omega) hx.2]; simp
+    · simp only [ha, Bool.false_or] at hf
+      simp only [ha, hf, if_true, Bool.false_eq_true, if_false]
+      have : (i == 0) = false := by simpa using hi
+      simp only [this, Bool.false_eq_true, if_false]
+      rw [ih _ _ _ (by omega) hx.2]; simp
+
+theorem goScheme_of_scheme (b : UInt8) (x y : Bytes) (hb : Whatwg.isAlpha b = true)
+    (hx : x.all Whatwg.isSchemeChar = true) : goScheme (b :: x ++ 58 :: y) = some (some (b :: x)) := by
+  have hbs : Whatwg.isSchemeChar b = true := by simp [Whatwg.isSchemeChar, hb]
+  have e : beforeHash (b :: x ++ 58 :: y) = (b :: x) ++ 58 :: (y.takeWhile (· != 35)) := by
+    simp only [beforeHash]
+    have : b :: x ++ 58 :: y = (b :: x ++ [58]) ++ y := by simp
+    rw [this, List.takeWhile_append_of_pos]
+    · simp
+    · intro a ha
+      simp only [List.cons_append, List.mem_cons, List.mem_append, List.mem_nil_iff, or_false] at ha
+      rcases ha with rfl | ha | rfl
+      · simpa using (scheme_facts a hbs).1
+      · simpa using (scheme_facts a (List.all_eq_true.mp hx a ha)).1
+      · decide
+  have ha : isAlpha b = true := by rw [(scheme_facts b hbs).2.2.2.2.2]; exact hb
+  rw [goScheme, e]
+  simp only [List.cons_append, getSchemeAux, ha, if_true]
+  rw [getSchemeAux_good x _ _ _ (by omega) hx]; simp
+
+theorem schemes_lower' : ∀ t ∈ cssUrlSchemes, t.all Proofs.Url.isLowerLetter = true ∧ t ∈ Css.cssAllowedSchemes := by
+  decide
+
+theorem urlAllowed_of_safe (parseOk : Bytes → Bool) (u : Bytes) (h : urlIsSafe parseOk u = true)
+    (hsp : (32 : UInt8) ∉ u) : Css.urlAllowed u = true := by
+  simp only [urlIsSafe, parseChecks, Bool.and_eq_true, Bool.not_eq_true'] at h
+  obtain ⟨⟨_, hctl, _⟩, hsch⟩ := h
+  have hb : ∀ b ∈ u, ¬ b < 0x20 ∧ b ≠ 0x20 := by
+    intro b hb
+    simp only [hasCTL, List.any_eq_false, Bool.or_eq_true, decide_eq_true_eq, beq_iff_eq, not_or] at hctl
+    exact ⟨(hctl b hb).1, fun e => hsp (e ▸ hb)⟩
+  simp only [Css.urlAllowed, Whatwg.scheme, preprocess_id u hb]
+  cases u with
+  | nil => rfl
+  | cons b rest =>
+    simp only
+    split
+    · rfl
+    · rename_i sc hs
+      split at hs
+      · rename_i hba
+        obtain ⟨x, y, rfl, hx, rfl⟩ := schemeState_some _ _ _ hs
+        rw [show b :: (x ++ 58 :: y) = b :: x ++ 58 :: y by simp, goScheme_of_scheme b x y hba hx] at hsch
+        simp only [List.any_eq_true] at hsch
+        obtain ⟨t, ht, he⟩ := hsch
+        obtain ⟨htl, htm⟩ := schemes_lower' t ht
+        have hbs : Whatwg.isSchemeChar b = true := by simp [Whatwg.isSchemeChar, hba]
+        have hall : ∀ c ∈ b :: x, Whatwg.isSchemeChar c = true := by
+          intro c hc
+          rcases List.mem_cons.mp hc with rfl | hc
+          · exact hbs
+          · exact List.all_eq_true.mp hx c hc
+        rcases Proofs.Url.equalFoldAux_letters t htl _ _ he with ⟨c, hc, hc80⟩ | ⟨_, g2⟩
+        · obtain ⟨a, ha, rfl⟩ := List.mem_map.mp hc
+          have := (scheme_facts a (hall a ha)).2.2.1
+          exact absurd hc80 (UInt8.not_le.mpr this)
+        · have e : [Whatwg.lower b] ++ x.map Whatwg.lower = t := by
+            rw [← g2, List.map_map]
+            have : (b :: x).map (Whatwg.lower ∘ lower) = (b :: x).map Whatwg.lower :=
+              List.map_congr_left fun a ha => (scheme_facts a (hall a ha)).2.2.2.1
+            rw [this]; simp
+          rw [e]
+          simpa using htm
+      · cases hs
+
+/-! ### background-image -/
+
+def bgSet : Bytes := Generated.sanitizeBackgroundImageContainsAny.getD 1 []
+
+def factBg (b : UInt8) : Bool :=
+  bgSet.contains b ||
+    (strB 34 b && strB 39 b && b != 32 && b != 41 && ((decide (b < 32) || b == 127) || urlB b))
+set_option maxRecDepth 8000 in
+theorem factBg_all : ∀ n : Nat, n < 256 → factBg (UInt8.ofNat n) = true := by decide
+
+theorem bg_facts (b : UInt8) (h : bgSet.contains b = false) :
+    strB 34 b = true ∧ strB 39 b = true ∧ b ≠ 32 ∧ b ≠ 41 ∧ ((b < 32 ∨ b = 127) ∨ urlB b = true) := by
+  have h2 := forall_byte (P := fun b => factBg b = true) factBg_all b
+  simp only [factBg, h, Bool.false_or, Bool.and_eq_true, bne_iff_ne, ne_eq, Bool.or_eq_true,
+    decide_eq_true_eq, beq_iff_eq] at h2
+  obtain ⟨⟨⟨⟨a, b⟩, c⟩, d⟩, e⟩ := h2
+  exact ⟨a, b, c, d, e⟩
+
+theorem noCTL_of_safe (parseOk : Bytes → Bool) (u : Bytes) (h : urlIsSafe parseOk u = true) :
+    ∀ b ∈ u, ¬ (b < 32 ∨ b = 127) := by
+  simp only [urlIsSafe, parseChecks, Bool.and_eq_true, Bool.not_eq_true'] at h
+  obtain ⟨⟨_, hctl, _⟩, _⟩ := h
+  intro b hb
+  simp only [hasCTL, List.any_eq_false, Bool.or_eq_true, decide_eq_true_eq, beq_iff_eq] at hctl
+  exact hctl b hb
+
+theorem run_url_word (us : List Bytes) : Run (N [] us) [117, 114, 108] (N Css.urlIdent us) := by
+  have := run_inert [117, 114, 108] (by decide) [] us
+  have e : ([117, 114, 108] : Bytes).foldl identStep [] = Css.urlIdent := by decide
+  rwa [e] at this
+
+theorem bg_quoted (q : UInt8) (hq : q = 34 ∨ q = 39) (body : Bytes)
+    (hbody : ∀ b ∈ body, bgSet.contains b = false) (hsafe : Css.urlAllowed body = true) :
+    PartRun ([117, 114, 108, 40, q] ++ body ++ [q, 41]) := by
+  intro us
+  refine ⟨[], [body], ?_, by simp [hsafe]⟩
+  have hs : body.all (strB q) = true := by
+    apply List.all_eq_true.mpr
+    intro b hb
+    rcases hq with rfl | rfl
+    · exact (bg_facts b (hbody b hb)).1
+    · exact (bg_facts b (hbody b hb)).2.1
+  have r1 := run_url_word us
+  have r2 := run_open_url us
+  have r3 := run_url_quote q hq us
+  have r4 := run_str q body hs [41] [] true us
+  have r5 := run_close_quote_url q [41] ([] ++ body) us
+  have r6 := run_close_paren (us ++ [[] ++ body])
+  have := Run.append r1 (Run.append r2 (Run.append r3 (Run.append r4 (Run.append r5 r6))))
+  simpa using this
+
+theorem bg_unquoted (body : Bytes) (hbody : ∀ b ∈ body, bgSet.contains b = false)
+    (hctl : ∀ b ∈ body, ¬ (b < 32 ∨ b = 127)) (hsafe : Css.urlAllowed body = true) :
+    PartRun ([117, 114, 108, 40] ++ body ++ [41]) := by
+  intro us
+  refine ⟨[], [body], ?_, by simp [hsafe]⟩
+  have hs : body.all urlB = true := by
+    apply List.all_eq_true.mpr
+    intro b hb
+    rcases (bg_facts b (hbody b hb)).2.2.2.2 with h | h
+    · exact absurd h (hctl b hb)
+    · exact h
+  have r1 := run_url_word us
+  have r2 := run_open_url us
+  have r4 := run_url body hs [] us
+  have r5 := run_url_close ([] ++ body) us
+  have := Run.append r1 (Run.append r2 (Run.append r4 r5))
+  simpa using this
+
+theorem strip_shape (t pre suf : Bytes) (hp : hasPrefix t pre = true) (hs : hasSuffix t suf = true) :
+    t = pre ++ trimSuffix (trimPrefix t pre) suf ++ suf ∨
+    (∃ r, t = pre ++ r ∧ r.length < suf.length ∧ trimSuffix (trimPrefix t pre) suf = r) := by
+  have hp' := hp
+  simp only [hasPrefix, hasSuffix, List.isPrefixOf_iff_prefix, List.isSuffixOf_iff_suffix] at hp' hs
+  obtain ⟨r, rfl⟩ := hp'
+  have e1 : trimPrefix (pre ++ r) pre = r := by simp [trimPrefix, hp]
+  rw [e1]
+  by_cases hl : suf.length ≤ r.length
+  · left
+    have hs' : suf <:+ r := List.suffix_of_suffix_length_le hs (List.suffix_append pre r) hl
+    obtain ⟨u, rfl⟩ := hs'
+    have : trimSuffix (u ++ suf) suf = u := by
+      simp [trimSuffix, hasSuffix]
+    rw [this]; simp
+  · right
+    refine ⟨r, rfl, by omega, ?_⟩
+    have : hasSuffix r suf = false := by
+      apply Bool.eq_false_iff.mpr
+      intro h
+      simp only [hasSuffix, List.isSuffixOf_iff_suffix] at h
+      exact hl h.length_le
+    simp [trimSuffix, this]
+
+theorem bgCore_run (parseOk : Bytes → Bool) (t body : Bytes)
+    (hstrip : stripUrl t Generated.validURLPrefixes Generated.validURLSuffixes = some body)
+    (hbody : containsAny body bgSet = false) (hsafe : urlIsSafe parseOk body = true) : PartRun t := by
+  have hb : ∀ b ∈ body, bgSet.contains b = false := by
+    simpa [containsAny, List.any_eq_false] using hbody
+  have hsp : (32 : UInt8) ∉ body := fun hm => (bg_facts 32 (hb 32 hm)).2.2.1 rfl
+  have h41 : (41 : UInt8) ∉ body := fun hm => (bg_facts 41 (hb 41 hm)).2.2.2.1 rfl
+  have hallowed := urlAllowed_of_safe parseOk body hsafe hsp
+  simp only [stripUrl, Generated.validURLPrefixes, Generated.validURLSuffixes] at hstrip
+  split at hstrip
+  · rename_i h
+    simp only [Bool.and_eq_true] at h
+    simp only [Option.some.injEq] at hstrip
+    rcases strip_shape t _ _ h.1 h.2 with e | ⟨r, e, hl, hr⟩
+    · rw [hstrip] at e
+      rw [e]; exact bg_quoted 34 (Or.inl rfl) body hb hallowed
+    · rw [hstrip] at hr; subst hr
+      have h2 := h.2
+      rw [e] at h2
+      match body, hl, h2, h41 with
+      | [], _, h2, _ => exact absurd h2 (by decide)
+      | [x], _, h2, h41 =>
+        simp [hasSuffix, List.isSuffixOf] at h2
+        simp at h41
+        exact absurd h2 h41
+      | _ :: _ :: _, hl, _, _ => simp only [List.length_cons, List.length_nil] at hl; omega
+  · split at hstrip
+    · rename_i h
+      simp only [Bool.and_eq_true] at h
+      simp only [Option.some.injEq] at hstrip
+      rcases strip_shape t _ _ h.1 h.2 with e | ⟨r, e, hl, hr⟩
+      · rw [hstrip] at e
+        rw [e]; exact bg_quoted 39 (Or.inr rfl) body hb hallowed
+      · rw [hstrip] at hr; subst hr
+        have h2 := h.2
+        rw [e] at h2
+        match body, hl, h2, h41 with
+        | [], _, h2, _ => exact absurd h2 (by decide)
+        | [x], _, h2, h41 =>
+          simp [hasSuffix, List.isSuffixOf] at h2
+          simp at h41
+          exact absurd h2 h41
+        | _ :: _ :: _, hl, _, _ => simp only [List.length_cons, List.length_nil] at hl; omega
+    · split at hstrip
+      · rename_i h
+        simp only [Bool.and_eq_true] at h
+        simp only [Option.some.injEq] at hstrip
+        rcases strip_shape t _ _ h.1 h.2 with e | ⟨r, e, hl, hr⟩
+        · rw [hstrip] at e
+          rw [e]; exact bg_unquoted body hb (noCTL_of_safe parseOk body hsafe) hallowed
+        · rw [hstrip] at hr; subst hr
+          have h2 := h.2
+          rw [e] at h2
+          match body, hl, h2 with
+          | [], _, h2 => exact absurd h2 (by decide)
+          | _ :: _, hl, _ => simp at hl
+      · cases hstrip
+
+theorem bgPart_good (parseOk : Bytes → Bool) (part : Bytes) (h : bgPartOk parseOk part = true)
+    (h60 : (60 : UInt8) ∉ part) : PartGood part := by
+  apply partGood_trim
+  have h60' : (60 : UInt8) ∉ trimSpace part := by
+    obtain ⟨a, b, e, _, _⟩ := trim_spec part
+    intro hm
+    apply h60
+    rw [e]; simp [hm]
+  simp only [bgPartOk] at h
+  split at h
+  · cases h
+  · rename_i body hs
+    simp only [Bool.and_eq_true, Bool.not_eq_true'] at h
+    exact ⟨bgCore_run parseOk _ body hs h.1 h.2, h60'⟩
+
+theorem backgroundImage_good (parseOk : Bytes → Bool) (v : Bytes) :
+    ValueGood (sanitizeBackgroundImage parseOk v) := by
+  unfold sanitizeBackgroundImage
+  split
+  · exact innocuous_good
+  · rename_i h0
+    split
+    · rename_i h
+      have h' := List.all_eq_true.mp h
+      have h60 : (60 : UInt8) ∉ v := by
+        intro hm
+        apply h0
+        simp only [containsAny, List.any_eq_true]
+        exact ⟨60, hm, by decide⟩
+      have := parts_good (splitComma v) (splitComma_ne_nil v) fun part hp =>
+        bgPart_good parseOk part (h' part hp) fun hm =>
+          h60 (by have := mem_joinComma hp hm; rwa [joinComma_splitComma] at this)
+      rw [joinComma_splitComma] at this
+      exact this.valueGood
+    · exact innocuous_good
+
+/-! ### the main theorem -/
+
+theorem sanitizeValue_good (parseOk : Bytes → Bool) (prop v : Bytes) :
+    ValueGood (sanitizeValue parseOk prop v) := by
+  unfold sanitizeValue
+  split
+  · split
+    · exact backgroundImage_good parseOk v
+    · split
+      · exact fontFamily_good v
+      · split
+        · exact enum_good v
+        · split
+          · exact regular_good v
+          · exact innocuous_good
+  · exact regular_good v
+
+def factName (b : UInt8) : Bool := !(b == 45 || (decide (97 ≤ b) && decide (b ≤ 122))) || (inertB b && b != 60)
+set_option maxRecDepth 8000 in
+theorem factName_all : ∀ n : Nat, n < 256 → factName (UInt8.ofNat n) = true := by decide
+
+theorem name_facts (b : UInt8) (h : b = 45 ∨ (97 ≤ b ∧ b ≤ 122)) : inertB b = true ∧ b ≠ 60 := by
+  have h2 := forall_byte (P := fun b => factName b = true) factName_all b
+  have h' : (b == 45 || (decide (97 ≤ b) && decide (b ≤ 122))) = true := by simpa using h
+  simp only [factName, h', Bool.not_true, Bool.false_or, Bool.and_eq_true, bne_iff_ne, ne_eq] at h2
+  exact h2
 
 /-- Main safety theorem: whatever `net/url.Parse` answers (`parseOk` is arbitrary), the sanitised pair is
     safely ONE declaration: the scanner specification ends it exactly at the `;` written after the value, for
     every continuation, every url() in it has no scheme or http/https/mailto, and neither part contains `<`. -/
 theorem sanitize_declSafe (parseOk : Bytes → Bool) (p v : Bytes) :
     Css.DeclSafe (sanitize parseOk p v).1 (sanitize parseOk p v).2 := by
-  sorry
+  unfold sanitize
+  simp only
+  split
+  · exact pair_good _ _ (by decide) (by decide) innocuous_good
+  · rename_i hne
+    rcases sanitizeProperty_shape p with h | ⟨_, h⟩
+    · simp [h] at hne
+    · refine pair_good _ _ (List.all_eq_true.mpr fun b hb => (name_facts b (h b hb)).1)
+        (fun hm => (name_facts 60 (h 60 hm)).2 rfl) (sanitizeValue_good parseOk _ v)
 
 /-- Style-attribute items: after the browser's attribute-value decoding the item is `name:value;` of the
     sanitised pair. -/
 theorem styleItem_decodes (parseOk : Bytes → Bool) (p v rest : Bytes) :
     Html.decodeRefs (styleItem parseOk p v ++ rest) =
       (sanitize parseOk p v).1 ++ [58] ++ (sanitize parseOk p v).2 ++ [59] ++ Html.decodeRefs rest := by
-  sorry
+  simp only [styleItem, List.append_assoc]
+  rw [Proofs.Html.decode_escape_append]
+  have e : ∀ x, Html.decodeRefs ([58] ++ x) = 58 :: Html.decodeRefs x := by
+    intro x; simp [Html.decodeRefs]
+  have e2 : ∀ x, Html.decodeRefs ([59] ++ x) = 59 :: Html.decodeRefs x := by
+    intro x; simp [Html.decodeRefs]
+  rw [e, Proofs.Html.decode_escape_append, e2]
+  simp
 
 end TemplVerif.Proofs.Css
